@@ -37,6 +37,29 @@ class StmtMixin:
             raise Unsupported(f'statement {type(s).__name__} (line {s.lineno})')
         self.cur_line = s.lineno
         m(s)
+        c = self.frame.contract
+        if c is not None and c.ghost_after and not isinstance(s, (ast.If, ast.For, ast.While, ast.Try, ast.With)):
+            key = ast.unparse(s).strip()
+            g = c.ghost_after.get(key)
+            if g is not None:
+                # ghost statements: may only assign ghost variables (checked syntactically)
+                for gs in ast.parse(g).body:
+                    self.check_ghost_stmt(gs, c)
+                    self.exec(gs)
+
+    def check_ghost_stmt(self, gs, c):
+        names = set(c.ghost_vars)
+        for x in ast.walk(gs):
+            if isinstance(x, ast.Name) and isinstance(x.ctx, ast.Store) and x.id not in names:
+                raise Unsupported(f'ghost code assigns non-ghost variable {x.id}')
+            if isinstance(x, ast.Attribute) and isinstance(x.ctx, ast.Store):
+                raise Unsupported('ghost code writes an attribute')
+            if isinstance(x, ast.Call) and isinstance(x.func, ast.Attribute) \
+                    and x.func.attr in ('append', 'add', 'update', 'pop', 'remove', 'appendleft', 'clear',
+                                        'extend', 'insert', 'discard', 'setdefault'):
+                root = x.func.value
+                if not (isinstance(root, ast.Name) and root.id in names):
+                    raise Unsupported('ghost code mutates a non-ghost object')
 
     # ------------------------------------------------------------ simple
     def s_Pass(self, s):
@@ -183,6 +206,8 @@ class StmtMixin:
         c = self.frame.contract
         if c is not None and name in c.sorts and name not in getattr(self.frame, 'param_names', ()):
             return parse_kind(c.sorts[name])
+        if c is not None and name in c.ghost_vars:
+            return parse_kind(c.ghost_vars[name])
         return None
 
     def setitem(self, base, idx, v):
@@ -459,7 +484,7 @@ class StmtMixin:
                 continue   # first touched in the body: created lazily, equals initial
             if arr.eq(old):
                 continue
-            allowed = self.allowed_refs(spec.modifies, key, self.loop_old_env)
+            allowed = self.allowed_refs(spec.modifies, key, None)
             if allowed is True:
                 continue
             r = z3.Int('r!fr')
@@ -518,6 +543,16 @@ class StmtMixin:
             v = SV(ctx[4], ordf(mem, i))
             self.wf_value(v)
             return v
+        if ctx[0] == 'symiter':
+            it, inner = ctx[1], ctx[3]
+            ordf, mem = inner[3]
+            key = self.wf_value(SV(inner[4], ordf(mem, i)))
+            if it.kind == 'keys':
+                return key
+            val = self.dict_get(it.base, key)
+            if it.kind == 'values':
+                return val
+            return self.make_tuple([key, val])
         raise Unsupported('iter_item')
 
 
